@@ -14,6 +14,7 @@ def run(ctx):
     _p12c(ctx)
     _w12(ctx)
     _p13(ctx)
+    _p13d(ctx)
 
 
 def _p12a(ctx):
@@ -42,16 +43,35 @@ def _p12a(ctx):
     for d in dels:
         c1 = eq_seen and all(not x.reaches(e_, d) for e_ in ne_edges)
         c2 = bool(none_edges) and x.dom(none_edges, d)
-        # generic fallback for iterator adaptors (.all/.any): delete is dominated by a call that consumes the token list
+        # iterator-adaptor form: `tokens.iter().all(|t| epoch(t) == at)` (delete on the true edge) or
+        # `.any(|t| epoch(t) != at)` (delete on the false edge)
         if not c2:
-            consumers = [n for n in x.ext_calls(r'Iterator::(all|any|find|position|fold|try_fold)$|iter::.*::(all|any)$')]
-            c2 = any(x.dom({n}, d) for n in consumers)
-            if consumers and not eq_seen:
-                for n in consumers:
-                    for ci in g.nodes[n].call['closure_insts']:
-                        rv = g.strip(g.ev_local(ci, 0))
-                        if rv[0] == 'bin' and rv[1] in ('Eq', 'Ne'):
-                            c1 = True
+            for n in x.ext_calls(r'Iterator::(all|any)$|iter::.*::(all|any)$'):
+                is_all = (g.call_name(n) or '').endswith('all')
+                pred = None
+                for ci in g.nodes[n].call['closure_insts']:
+                    rv = g.strip(g.ev_local(ci, 0))
+                    if rv[0] == 'bin' and rv[1] in ('Eq', 'Ne') and any(a.on('MemToken.epoch') for a in x.loads_in(rv)):
+                        pred = rv[1]
+                want = None
+                if is_all and pred == 'Eq':
+                    want = 'nonzero'
+                elif (not is_all) and pred == 'Ne':
+                    want = 'zero'
+                if want is None:
+                    continue
+                edges = set()
+                for sid in x.switches():
+                    e = g.strip(g.switch_expr(sid))
+                    pol = want
+                    while e[0] == 'un' and e[1] == 'Not':
+                        e = g.strip(e[2])
+                        pol = 'zero' if pol == 'nonzero' else 'nonzero'
+                    if e[0] == 'call' and x.rep(e[1]) == n:
+                        edges.update(x.switch_edges(sid, pol))
+                if edges and x.dom(edges, d):
+                    c1 = True
+                    c2 = True
         ctx.add('P12a', 'T-GUARD', fn, c1 and c2,
                 'retired objects are deleted only after every registered token was seen at the requested epoch' if c1 and c2 else
                 'try_freeing: delete unreachable from a "token epoch differs" edge=%s, delete only after the whole token list was examined=%s' % (c1, c2),
@@ -140,6 +160,38 @@ def _p12c(ctx):
         ctx.add('P12c', 'T-FLOW', r, not bad, 'no pointer obtained from the stream list before an epoch announcement is used after it' if not bad else bad[0],
                 witness=bad[:5], sub='quiescent')
     ctx.floor('P12c', n_ann, 3, 'epoch announcements (update_token) reachable from the operation roots')
+
+
+def _p13d(ctx):
+    fn = ctx.fn1(r'^memory::MemoryManager::start_free$')
+    g = ctx.graph(fn)
+    x = g.x
+    # overwriting the pending batch: assignment to MemoryManagerInner.tofree
+    writes = []
+    for n in g.nodes:
+        if n.id in g.live() and n.kind == 'block':
+            for si, s in enumerate(n.stmts):
+                if s['k'] == 'assign' and s['pl']['p'] and isinstance(s['pl']['p'][-1], dict) and s['pl']['p'][-1].get('f') == 'tofree':
+                    writes.append(x.rep(n.id))
+    writes = sorted(set(writes))
+    ctx.floor('P13d', len(writes), 1, 'installation of a new retired-object batch (MemoryManagerInner.tofree)')
+    done_edges = set()
+    for sid in x.switches():
+        e = g.strip(g.switch_expr(sid))
+        if e[0] == 'bin' and e[1] in ('Eq', 'Ne'):
+            sides = [g.strip(e[2]), g.strip(e[3])]
+            has_inner = any(any(s[0] == 'fld' and s[2] == 'MemoryManagerInner.epoch' for s in g.deep_walk(sd)) for sd in sides)
+            has_glob = any(any(a.on('MemoryManager.epoch') for a in x.loads_in(sd)) for sd in sides)
+            if has_inner and has_glob:
+                done_edges.update(x.switch_edges(sid, 'nonzero' if e[1] == 'Eq' else 'zero'))
+        if e[0] == 'call' and re.search(r'Vec(::<.*>)?::is_empty$', g.call_name(e[1]) or '') and \
+                any(s[0] == 'fld' and s[2] == 'MemoryManagerInner.tofree' for s in g.deep_walk(g.call_args(e[1])[0])):
+            done_edges.update(x.switch_edges(sid, 'nonzero'))
+    for w in writes:
+        ok = bool(done_edges) and x.dom(done_edges, w)
+        ctx.add('P13d', 'T-GUARD', fn, ok, 'a new batch of retired objects is installed only when the previous cycle completed (completed epoch == current epoch / batch empty)' if ok else
+                'start_free can overwrite a pending batch of retired objects (the guard is not "completed epoch == current epoch"): the overwritten batch is dropped without being deleted and leaks',
+                where=g.where(w), sub='add_freeable')
 
 
 def _w12(ctx):
